@@ -44,7 +44,7 @@ func NewParams(schema *Schema, su SimpleURL, resType string) (*Params, error) {
 		for _, word := range words {
 			if typ := schema.GetType(incRel.ToType); typ.Name != "" {
 				var ok bool
-				if incRel, ok = typ.Rels[word]; ok {
+				if incRel, ok = typ.Rels[word]; ok && schema.HasType(incRel.ToType) {
 					params.Fields[incRel.ToType] = []string{}
 				} else {
 					incs = append(incs[:i], incs[i+1:]...)
